@@ -99,7 +99,8 @@ Definition matched (last_n start_number boundary : N) (difficulties : list N)
         let* before := count_below boundary hs in
         let lcount := total - before in
         if last_n <? lcount then
-          let* s := sub_chk S_M_757 before reorg in Ok (s, lcount)
+          (* fix commit 2a85813: a reorg header at or above the boundary is an error, not an underflow *)
+          if before <? reorg then Err E_INVALID_REORG else Ok (before - reorg, lcount)
         else Ok (total - reorg - last_n, last_n)
       else Ok (0, total - reorg) in
     let '(sampled, lcount) := sl in
@@ -109,8 +110,8 @@ Definition matched (last_n start_number boundary : N) (difficulties : list N)
           let* f := nth_hdr hs reorg in
           let* l := nth_hdr hs (total - 1) in
           if negb (h_num f =? start_number) then Err E_MALFORMED else
-          let* l1 := add64 S_M_772 (h_num l) 1 in
-          if l1 =? last_number then Ok tt else Err E_MALFORMED
+          (* fix commit 2a85813: checked_add(1) != Some(last_number) *)
+          if (h_num l + 1 <=? U64MAX) && (h_num l + 1 =? last_number) then Ok tt else Err E_MALFORMED
         else Ok tt
       else
         let* fl := nth_hdr hs (reorg + sampled) in
